@@ -11,8 +11,10 @@
    Oracles (Section variables): [solve] = scipy.linalg.lstsq(N, rhs, lapack_driver='gelsy')[0];
      [acc] / [accv] = the values returned by teneva.accuracy / teneva.accuracy_on_data; [cb] = the callback;
      adaptive path: [orth] = teneva.orthogonalize(Y, 0), [skel] = teneva.matrix_skeleton(Qs, e, r, rel=True, ..).
+   The driver loop [gen_loop] is generic in the state and the sweep function: als_func (Model/AlsFunc.v) uses it too.
+   The rank-adaptive path is [als_adaptive] (e=None, no validation data, no callback: max(1, nswp) sweeps).
    NOT modelled: allow_swap=True ("VERY experimental"), update_sol, lamb=None, use_stab, log, info['t'], info['r'],
-     negative (wrapping) indices. *)
+     negative (wrapping) indices; in the adaptive path the content of np.empty for an index pair without sample. *)
 From Coq Require Import List Arith Lia PeanoNat Bool.
 From TV Require Import Num.Ops Lin.Tab Lin.BigSum Lin.Solve TT.Chain.
 Import ListNotations.
